@@ -268,6 +268,28 @@ def runOp (op : String) (fields : List String) (impl : String) : Option Verdict 
         | _, _, _, _ => ["unreadable-result"]
       | _ => ["unreadable-result"]
     pure { model := toString l ++ " " ++ toString c ++ " " ++ toString l ++ " " ++ toString c, oracle }
+  | "NUM", [h] => do
+    let s ← Bytes.ofHex h
+    match scan s with
+    | [t] =>
+      if t.kind != .number then pure { model := "NOTNUM" } else
+      let isF := litIsFloat t.kind t.value
+      let isI := litIsInteger t.kind t.value
+      -- Uint64 of an integer literal: its value when it fits in 64 bits, else 0
+      let v := t.value.foldl (fun acc c => acc * 10 + (c.toNat - 48)) 0
+      let u := if isI then toString (if v < 18446744073709551616 then v else 0) else "-"
+      -- oracle (C09 accessors): the literal is a float iff its *source spelling* has a '.', 'e' or 'E'
+      -- (hexadecimal spellings are integers)
+      let isHex := match s with | 48 :: x :: _ => x == 120 || x == 88 | _ => false
+      let spellFloat := !isHex && s.any (fun c => c == 46 || c == 101 || c == 69)
+      let oracle : List String :=
+        match impl.splitOn " " with
+        | [_, f, i, _] =>
+          (if (f == "t") == spellFloat then [] else ["accessor-isfloat-disagrees-with-spelling"]) ++
+          (if (i == "t") == !spellFloat then [] else ["accessor-isinteger-disagrees-with-spelling"])
+        | _ => if impl == "NOTNUM" then ["number-spelling-not-one-number-token"] else ["unreadable-result"]
+      pure { model := Bytes.toHexField t.value ++ " " ++ dumpBool isF ++ " " ++ dumpBool isI ++ " " ++ u, oracle }
+    | _ => pure { model := "NOTNUM" }
   | "PARSEV", [h] => do
     let s ← Bytes.ofHex h
     pure { model := fmtParse (parse s), oracle := ParseOracle.clauses s impl true }
